@@ -298,6 +298,14 @@ M('eltorito-zero-indicator-shadowed', 'fault', ['C01', 'C05', 'C08', 'C10', 'C11
 M('twin-eltorito-dispatch-reordered', 'twin', ['C01', 'C05', 'C08', 'C10', 'C11'], [],
   [(ELT, "            if val == b'\\x00' and not section_open:\n", "            if not section_open and val == b'\\x00':\n")])
 
+M('nm-length-short-by-one', 'fault', ['C05', 'C08'], ['SA-LEN.susp'],
+  [(RR, "        return 5 + len(rr_name)\n", "        return 4 + len(rr_name)\n")], 'RRNMRecord')
+M('pn-length-constant-wrong', 'fault', ['C05', 'C08'], ['SA-LEN.susp'],
+  [(RR, "         The length of this record in bytes.\n        \"\"\"\n        return 20\n", "         The length of this record in bytes.\n        \"\"\"\n        return 16\n")], 'RRPNRecord')
+M('twin-nm-record-as-join', 'twin', ['C05', 'C08'], [],
+  [(RR, "        return b'NM' + struct.pack(self.FMT,\n                                   RRNMRecord.length(self.posix_name),\n                                   SU_ENTRY_VERSION,\n                                   self.posix_name_flags) + self.posix_name\n",
+    "        head = struct.pack(self.FMT,\n                           RRNMRecord.length(self.posix_name),\n                           SU_ENTRY_VERSION,\n                           self.posix_name_flags)\n        return b''.join([b'NM', head, self.posix_name])\n")])
+
 
 def applicable(m, sources):
     for rel, old, new in m['edits']:
